@@ -73,7 +73,14 @@ class UnitDataEnvelope(Contract):
             return out
         e = a.unit_expr
         k = e_kind(e.term)
-        subs = [res for (x, res) in it.__dict__.get("unit_data_results", [])]
+        walked = it.__dict__.get("unit_data_results", [])
+        subs = [res for (x, res) in walked]
+        args_ = getattr(e, "_args", None)
+        if walked and args_ is not None:
+            # the sub-expressions evaluated are the expression's own children, in order
+            # (Pow: the base, never the exponent)
+            out.append(("C02: the walk evaluates the expression's own factors (Pow: the base)",
+                        all(x is args_[i] for i, (x, res) in enumerate(walked) if i < len(args_))))
         sc, dim = to_real(r[0]), r[1]
 
         def sub_scale(i):
@@ -103,6 +110,8 @@ class UnitDataEnvelope(Contract):
             d0, d1 = sub_dim(0), sub_dim(1)
             out.append(("C02: Mul: scale == product of the factors' scales",
                         z3.Implies(k == K_MUL, sc == sub_scale(0) * sub_scale(1))))
+            out.append(("C02: Mul: the dimension returned is a dimension expression",
+                        z3.Implies(k == K_MUL, z3.BoolVal(isinstance(dim, SDim)))))
             if d0 is not None and d1 is not None and isinstance(dim, SDim):
                 out.append(("C02: Mul: dimension == product of the factors' dimensions",
                             z3.Implies(k == K_MUL, z3.And(*[to_real(x) == to_real(y) + to_real(z_)
